@@ -128,3 +128,11 @@ func (m *Mem) Store(o *Object, p Path, v *Term) { m.store(o, p, v) }
 // F is a field path element, I a constant index path element.
 func F(i int) PathElem   { return PathElem{Field: i} }
 func I(i int64) PathElem { return PathElem{Field: -1, Index: i} }
+
+// ValueOf returns the value stored under a cell key (as listed by Keys).
+func (m *Mem) ValueOf(key string) *Term {
+	if c, ok := m.cells[key]; ok {
+		return c.val
+	}
+	return nil
+}
